@@ -341,6 +341,63 @@ Proof.
   - left. unfold check_mode_leaks. apply filter_In. split; [exact Hin|]. rewrite C, E. reflexivity.
 Qed.
 
+(* ---------------------------------------------------------------- soundness of the witness finders *)
+Lemma find_check_leak_sound : forall T sname c r,
+  find_check_leak T sname c = Some r -> raises_in_check_mode T sname c.
+Proof.
+  intros T sname c r F. unfold find_check_leak in F. apply find_some in F. destruct F as [Hin E].
+  apply andb_true_iff in E. destruct E as [E1 E2].
+  apply String.eqb_eq in E1. apply String.eqb_eq in E2.
+  unfold check_mode_leaks in Hin. apply filter_In in Hin. destruct Hin as [Hin K].
+  apply andb_true_iff in K. destruct K as [K1 K2]. apply negb_true_iff in K2.
+  exists r. split; [exact Hin|]. split; [exact E1|]. split; [exact E2|]. split; [exact K1|exact K2].
+Qed.
+
+Lemma prim_eqb_eq : forall a b, prim_eqb a b = true -> a = b.
+Proof. destruct a, b; cbn; intros; try reflexivity; discriminate. Qed.
+
+Lemma find_prim_leak_sound : forall T sname fn k c p,
+  find_prim_leak T sname fn k c = Some p -> leaks_primitive T sname fn k c.
+Proof.
+  intros T sname fn k c p F. unfold find_prim_leak in F. apply find_some in F. destruct F as [Hin E].
+  apply andb_true_iff in E. destruct E as [E E5].
+  apply andb_true_iff in E. destruct E as [E E4].
+  apply andb_true_iff in E. destruct E as [E E3].
+  apply andb_true_iff in E. destruct E as [E1 E2].
+  apply String.eqb_eq in E1. apply String.eqb_eq in E2. apply prim_eqb_eq in E3. apply negb_true_iff in E5.
+  exists p. split; [exact Hin|]. split; [exact E1|]. split; [exact E2|]. split; [exact E3|]. split; [|exact E5].
+  unfold mem in E4. apply existsb_exists in E4. destruct E4 as [x [Hx Ex]].
+  apply String.eqb_eq in Ex. subst x. exact Hx.
+Qed.
+
+Lemma find_quiet_raise_sound : forall T sname c r,
+  find_quiet_raise T sname c = Some r ->
+  In r (t_raises T) /\ r_site r = sname /\ r_cls r = c /\
+  all_controlled (t_hier T) (route_at T false (r_site r) (r_local r) (mkexn (r_cls r) Deliberate)) = true /\
+  ~ In r (check_mode_leaks T).
+Proof.
+  intros T sname c r F. unfold find_quiet_raise in F. apply find_some in F. destruct F as [Hin E].
+  apply andb_true_iff in E. destruct E as [E E4].
+  apply andb_true_iff in E. destruct E as [E E3].
+  apply andb_true_iff in E. destruct E as [E1 E2].
+  apply String.eqb_eq in E1. apply String.eqb_eq in E2.
+  split; [exact Hin|]. split; [exact E1|]. split; [exact E2|]. split; [exact E3|].
+  intro K. unfold check_mode_leaks in K. apply filter_In in K. destruct K as [_ K].
+  rewrite E3, E4 in K. discriminate.
+Qed.
+
+Lemma find_guarded_prim_sound : forall T sname k p,
+  find_guarded_prim T sname k = Some p ->
+  In p (t_prims T) /\ p_site p = sname /\ p_kind p = k /\ ~ In p (prim_leaks T).
+Proof.
+  intros T sname k p F. unfold find_guarded_prim in F. apply find_some in F. destruct F as [Hin E].
+  apply andb_true_iff in E. destruct E as [E E3].
+  apply andb_true_iff in E. destruct E as [E1 E2].
+  apply String.eqb_eq in E1. apply prim_eqb_eq in E2. apply negb_true_iff in E3.
+  split; [exact Hin|]. split; [exact E1|]. split; [exact E2|].
+  intro K. unfold prim_leaks in K. apply filter_In in K. destruct K as [_ K]. rewrite E3 in K. discriminate.
+Qed.
+
 (* ---------------------------------------------------------------- MCNP_Object.__init__ *)
 Inductive tree_state := TUnset | TNone | TSome.
 Inductive init_result := IDone | IRaise (e : exn).
